@@ -9,6 +9,7 @@ import (
 	"syscall"
 
 	"github.com/nspcc-dev/neofs-node/pkg/local_object_storage/blobstor/common"
+	"github.com/nspcc-dev/neofs-node/pkg/util/verifhook"
 	oid "github.com/nspcc-dev/neofs-sdk-go/object/id"
 )
 
@@ -97,7 +98,11 @@ func (w *genericWriter) writeAndRename(tmpPath, p string, data []byte) error {
 		return fmt.Errorf("write data into file %q: %w", tmpPath, err)
 	}
 
+	if ferr := verifhook.Fault("fstree.generic.rename"); ferr != nil {
+		return fmt.Errorf("rename file %q->%q: %w", tmpPath, p, ferr) // injected: the rename is not made
+	}
 	err = os.Rename(tmpPath, p)
+	verifhook.Point("fstree.after.generic.rename")
 	if err != nil {
 		return fmt.Errorf("rename file %q->%q: %w", tmpPath, p, err)
 	}
@@ -109,15 +114,31 @@ func (w *genericWriter) writeAndRename(tmpPath, p string, data []byte) error {
 // The code is copied from `os.WriteFile` with minor corrections for flags.
 func (w *genericWriter) writeFile(p string, data []byte) error {
 	f, err := os.OpenFile(p, w.flags, w.perm)
+	if ferr := verifhook.Fault("fstree.generic.open"); ferr != nil && err == nil {
+		_ = f.Close()
+		_ = os.Remove(p) // the injected failure stands for a file that was not created
+		err = ferr
+	}
+	verifhook.Point("fstree.after.generic.open")
 	if err != nil {
 		return fmt.Errorf("open file with flags %d: %w", w.flags, err)
 	}
 	_, err = f.Write(data)
+	if ferr := verifhook.Fault("fstree.generic.write"); ferr != nil && err == nil {
+		err = ferr
+	}
+	verifhook.Point("fstree.after.generic.write")
 	if err != nil {
 		_ = f.Close()
+		_ = verifhook.Fault("fstree.generic.close")
+		verifhook.Point("fstree.after.generic.close")
 		return fmt.Errorf("write data to the file: %w", err)
 	}
 	err = f.Close()
+	if ferr := verifhook.Fault("fstree.generic.close"); ferr != nil && err == nil {
+		err = ferr
+	}
+	verifhook.Point("fstree.after.generic.close")
 	if err != nil {
 		return fmt.Errorf("close file: %w", err)
 	}
